@@ -21,6 +21,10 @@ pub enum Kind {
     ClockOwnBig,
     /// the same with the clocks swapped: more than the mover's own budget - a regular cut
     ClockOwnSmall,
+    /// both clocks 2 s (budget 100 ms) and from the k-th check on 150 ms have elapsed: over the
+    /// budget by less than a factor of two - a regular cut for an engine whose budget is fixed,
+    /// but an engine that enlarges its budget on the way would have to decide that on sound data
+    ClockJustOver,
 }
 
 impl Kind {
@@ -32,6 +36,7 @@ impl Kind {
             Kind::ClockManaged => "clock-managed",
             Kind::ClockOwnBig => "clock-own-big",
             Kind::ClockOwnSmall => "clock-own-small",
+            Kind::ClockJustOver => "clock-just-over",
         }
     }
     fn parse(t: &str) -> Kind {
@@ -41,6 +46,7 @@ impl Kind {
             "clock-managed" => Kind::ClockManaged,
             "clock-own-big" => Kind::ClockOwnBig,
             "clock-own-small" => Kind::ClockOwnSmall,
+            "clock-just-over" => Kind::ClockJustOver,
             _ => Kind::Nodes,
         }
     }
@@ -71,6 +77,12 @@ impl Kind {
                 limits.btime = Some(1000);
                 limits.winc = Some(10);
                 limits.binc = Some(10);
+                cut = if k == 0 { Cut::ClockNever } else { Cut::ClockAt(k) };
+            }
+            Kind::ClockJustOver => {
+                limits.wtime = Some(2_000);
+                limits.btime = Some(2_000);
+                elapsed_ms = Some(150);
                 cut = if k == 0 { Cut::ClockNever } else { Cut::ClockAt(k) };
             }
             Kind::ClockOwnBig | Kind::ClockOwnSmall => {
@@ -294,7 +306,7 @@ pub fn worker(args: &Args, w: &Worker) -> i32 {
     let mut idx = 0usize;
     for pr in &ps {
         let Ok((board, _, _)) = searchrun::open(pr.pos.fen, &spos::hist(pr.pos)) else { continue };
-        for kind in [Kind::Nodes, Kind::Stop, Kind::ClockMovetime, Kind::ClockManaged, Kind::ClockOwnBig, Kind::ClockOwnSmall] {
+        for kind in [Kind::Nodes, Kind::Stop, Kind::ClockMovetime, Kind::ClockManaged, Kind::ClockOwnBig, Kind::ClockOwnSmall, Kind::ClockJustOver] {
             if kind != Kind::Nodes && pr.t > cap_other {
                 continue;
             }
@@ -423,7 +435,7 @@ pub fn worker(args: &Args, w: &Worker) -> i32 {
                 fork_sweep(w, p, depth, Kind::ClockManaged, 2, 1);
             } else {
                 // (own-big: the child is NOT cut and finishes the whole search - thorough only)
-                let kinds: &[Kind] = if thorough && probe.nodes <= 12_000 { &[Kind::Stop, Kind::ClockMovetime, Kind::ClockManaged, Kind::ClockOwnBig] } else { &[Kind::Stop, Kind::ClockMovetime, Kind::ClockManaged] };
+                let kinds: &[Kind] = if thorough && probe.nodes <= 12_000 { &[Kind::Stop, Kind::ClockMovetime, Kind::ClockManaged, Kind::ClockJustOver, Kind::ClockOwnBig] } else { &[Kind::Stop, Kind::ClockMovetime, Kind::ClockManaged, Kind::ClockJustOver] };
                 for &kind in kinds {
                     fork_sweep(w, p, depth, kind, 1, 0);
                 }
